@@ -617,6 +617,8 @@ func (msc *MinerSmartContract) contributeMpk(t *transaction.Transaction,
 		return "", common.NewErrorf("contribute_mpk_failed",
 			"decoding request: %v", err)
 	}
+	// the contribution belongs to the sender whatever ID the input carries
+	mpk.ID = t.ClientID
 
 	if len(mpk.Mpk) != dmn.T {
 		return "", common.NewErrorf("contribute_mpk_failed",
@@ -701,6 +703,8 @@ func (msc *MinerSmartContract) shareSignsOrShares(t *transaction.Transaction,
 		return "", common.NewErrorf("share_signs_or_shares",
 			"decoding input %v", err)
 	}
+	// shares are validated against the sender's own public key vector
+	sos.ID = t.ClientID
 
 	if len(sos.ShareOrSigns) < dmn.K-1 {
 		return "", common.NewErrorf("share_signs_or_shares",
